@@ -260,6 +260,46 @@ def run(tier, seed):
                     reps += 1
                 pd, reg = regsim.build(s)
                 B.run_case(regrun.policy_of(pd), reg, "dict", "reject", f"binding-value/{nm}/{fmt}/{kind}", scn=s)
+    # ---- degenerate keys: Ed25519 public keys of SMALL ORDER (the eight points whose order divides 8, in every encoding of them) ----
+    # For such a key A the verification equation S*B = R + H(R,A,M)*A loses (most of) its dependence on the message: with A the identity, the signature (R = identity, S = 0)
+    # verifies for EVERY message.  A credential that registered such a key (fmt none accepts any well-formed key) therefore authenticates with one fixed signature whatever
+    # the authenticator data and client data say - the statement of C06 fails for it.  Finding F12 (known_findings.json: listed by key encoding; any OTHER key is still reported).
+    import cbor2 as _cb
+    P_ = 2 ** 255 - 19
+    ys = [0, 1, 2707385501144840649318225287225658788936804267575313519463743609750303402022, 55188659117513257062467267217118295137698188065244968500265048394206261417927, P_ - 1, P_, P_ + 1]
+    small_order = [(y | (sgn << 255)).to_bytes(32, "little") for y in ys for sgn in (0, 1)]
+    # a key that is NOT of small order, for contrast (the base point): with it no (R, 0) signature verifies, and nothing below may report it
+    probe_keys = small_order + [bytes.fromhex("5866666666666666666666666666666666666666666666666666666666666666")]
+    s = authcat.Scn("EdDSA")
+    s.cd_extra = {"pad": "x" * 12}
+    pol0, a0 = s.build()
+    weak_hits = 0
+    for K in probe_keys:
+        stored = _cb.dumps({1: 1, 3: -8, -1: 6, -2: K})
+        polK = impl.AuthPolicy(pol0.challenge, pol0.rp_id, pol0.origin, stored, pol0.count, pol0.require_uv)
+        sig_ok = None
+        for R_ in small_order:
+            a0.sig = R_ + bytes(32)
+            chk.evals += 1
+            if impl.verify_auth(polK, a0.as_record()).startswith("OK"):
+                sig_ok = a0.sig
+                break
+        if sig_ok is None:
+            continue
+        weak_hits += 1
+        reported_ = False
+        for part in ("cdj", "ad"):
+            orig = getattr(a0, part)
+            for i in range(0, len(orig) * 8, 3 if quick else 1):
+                setattr(a0, part, orig[: i // 8] + bytes([orig[i // 8] ^ (1 << (i % 8))]) + orig[i // 8 + 1:])
+                il = impl.verify_auth(polK, a0.as_record())
+                chk.evals += 1
+                if il.startswith("OK") and not reported_:
+                    reported_ = True
+                    chk.violation(f"authentication under the stored Ed25519 key {K.hex()} (a point of small order): the fixed signature {sig_ok.hex()[:16]}...00 is accepted, and still accepted with bit {i} of {part} changed",
+                                  f"auth-flip small-order-ed25519-key key={K.hex()} {part}", {"entry": "verify_authentication_response", "policy": polK.describe(), "credential": a0.as_dict(), "part": part, "bit": i})
+            setattr(a0, part, orig)
+    chk.notes.append({"ed25519_small_order_keys_under_which_a_fixed_signature_verifies": weak_hits, "of": len(small_order)})
     chk.exhaustive = True
     A.close(); B.close()
     fw.env_invariance(chk, "auth", "reg")          # the same seeded cases under -O / -OO, warnings-as-errors, other TZ / locale, a private CA bundle
